@@ -49,6 +49,17 @@ def douglas_case(case):
     used = list(range(d)) if mask is None else [i for i in range(d) if mask[i]]
     where = dict(d=d, mask=None if mask is None else list(map(int, mask)), n_cuts=n_cuts, temperature=temperature, batch_size=batch_size)
     v = []
+    if temperature in (10.0, 0.02):
+        # the fitted model as a worker / a stored file / a pipeline copy hands it back (pickle, deepcopy, cloudpickle): every check below runs on the copy
+        from mc import transport
+        kind_ = transport.pick((d, repr(mask), n_cuts, temperature))
+        before_ = model.predict_proba(X)
+        try:
+            model = transport.roundtrip(model, kind_)
+            if not np.allclose(model.predict_proba(X), before_, rtol=1e-12, atol=1e-14):
+                v.append(violation("masked_feature_changes_predictions", {"what": f"the {kind_} copy of the fitted model predicts differently from the original"}, **where))
+        except Exception as e:  # noqa
+            v.append(violation("masked_feature_changes_predictions", {"what": f"{kind_} copy failed", "error": repr(e)[:200]}, **where))
     # leaves
     if model.leaf_scores_.shape != ((n_cuts + 1) ** len(used), 3):
         v.append(violation("wrong_number_of_leaves", {"shape": model.leaf_scores_.shape, "expected": (n_cuts + 1) ** len(used)}, **where))
